@@ -18,14 +18,18 @@ defs and lambdas; decision-tree merges; loops solved by induction), not on the s
       callee);
       with everything inlined the driver's trial point, its iterate (by induction over the main loop) and every point it returns
       are box points of the driver's bounds;
+      the bracket of a bracketing root finder (`brentq(f, a, b)` in project_onto_tr): f is evaluated at both bracket ends by the
+      executor (centre feasible: project(xk, bounds) == xk assumed) and the conditions of every path that reaches the call must imply
+      f(a) <= 0 <= f(b) or the reverse (an end value is the negated early-exit guard, the other -radius^2); REFUTED only with an exact
+      one-dimensional admissible witness on which the call is reached with f(a)*f(b) > 0 (the finder raises: no point is returned);
   D4  NaN polarity;  T6 both trust-region drivers use the same acceptance rule shape.
 REFUTED only for fully understood values (no library result without a model, no loop-carried unknown): a case the executor cannot read
 is UNDECIDED.  One exception, itself a derivation: a value with loop-carried unknowns (a step length multiplied / divided in a search loop)
 is still refuted by a *degenerate-box witness* -- a point feasible for every box containing the feasible x must reduce to p on the box
 lower == upper == {p} (where every projection is p); when value[box points := p] - p has a derived non-zero sign for positive inputs
 (sign of a carried unknown by induction over its loop record: initial value and back-edge value) and no condition on the way pins single
-components against the box, the value leaves the box (`-alpha*g` in a cut-back loop, as opposed to `project(x - alpha*g, bounds) - x`).  Not decided: alpha >= 0, optimality for convex problems, closest-point property beyond the clamp shape, behaviour of
-scipy.optimize.brentq, membership in the trust region.
+components against the box, the value leaves the box (`-alpha*g` in a cut-back loop, as opposed to `project(x - alpha*g, bounds) - x`).  Not decided: alpha >= 0, optimality for convex problems, closest-point property beyond the clamp shape, what
+scipy.optimize.brentq converges to (only its bracket precondition is), membership in the trust region.
 """
 from __future__ import annotations
 
@@ -43,7 +47,8 @@ EXPLANATION = ("Symbolic execution of optimism/TrustRegionSPG.py on hash-consed 
                "merges; loops solved by induction with box-point and relational invariants): guarded success returns, descent sign proof, "
                "NaN polarity and a box-point algebra showing that every point the driver can report is a convex combination of box "
                "projections (step lengths <= 1 by interval arithmetic through every line-search callee). "
-               "Numerical optimality and the root finder inside project_onto_tr are not decided.")
+               "The bracket handed to the root finder inside project_onto_tr must change sign on every path that reaches the call. "
+               "Numerical optimality and what the root finder converges to are not decided.")
 
 SPG = "optimism.TrustRegionSPG"
 DRIVER = "bound_constrained_trust_region_minimize"
@@ -57,6 +62,7 @@ def run(ctx):
     ctx.guard(d3_reported, ctx)
     ctx.guard(d4, ctx)
     ctx.guard(d3_feasible, ctx)
+    ctx.guard(d3_root_bracket, ctx)
     ctx.guard(t6_siblings, ctx)
     ctx.guard(TR.settings_wiring, ctx, "D1/T5-settings-wiring", SPG)
     ctx.trust("IEEE-754: every ordered comparison with a NaN operand is false")
@@ -548,6 +554,226 @@ def d3_feasible(ctx):
                    bad_detail=f"the returned point is {why}; it is not provably inside `{dps[2]}`")
 
 
+# ------------------------------------------------------------------ D3 the bracket handed to a bracketing root finder
+
+RULE_BRACKET = "D3/T2-root-finder-bracket"
+_NONNEG_KINDS = ("norm", "sqrt", "abs")
+
+
+def _syntactic_sign(p):
+    """(certainly >= 0, certainly <= 0) of a polynomial over atoms: every monomial is a product of even powers / squared lengths /
+    norms, so its sign is the sign of its coefficient."""
+    ge = le = True
+    for m, c in p.t.items():
+        for (a, e) in m:
+            t = term(a)
+            if e % 2 and not (t.k in _NONNEG_KINDS or (t.k == "dot" and t.a[0].key == t.a[1].key)):
+                return False, False
+        if c > 0:
+            le = False
+        elif c < 0:
+            ge = False
+    return ge, le
+
+
+def _ordering_facts(lits):
+    """[(D, strict)]: polynomials D with D > 0 (strict) / D >= 0 on a path, read off the ordered comparisons among its literals
+    (NaN operands are the business of D4, not of this rule)."""
+    out = []
+    for (c, pol) in lits:
+        if c.k != "cmp" or c.a[0] not in ("lt", "le") or not (S.is_num(c.a[1]) and S.is_num(c.a[2])):
+            continue
+        a, b = poly(c.a[1]), poly(c.a[2])
+        if pol:
+            out.append((b - a, c.a[0] == "lt"))
+        else:
+            out.append((a - b, c.a[0] == "le"))
+    return out
+
+
+def _end_sign(v, facts):
+    """(v >= 0 is implied, v <= 0 is implied) by the facts of the path, for the value v of the callable at one bracket end"""
+    if v is None or not S.is_num(v):
+        return False, False
+    p = poly(v)
+    ge, le = _syntactic_sign(p)
+    for (D, _strict) in facts:
+        if _syntactic_sign(p - D)[0]:          # v = D + (something >= 0) with D >= 0
+            ge = True
+        if _syntactic_sign(p + D)[1]:          # v = -D + (something <= 0)
+            le = True
+    return ge, le
+
+
+def _scalar_value(t, val, memo):
+    """Exact value of a term in a ONE-dimensional instance (every vector has one component, `@` is the product); None when the term
+    has a part this evaluator has no model for.  val: key of an input term -> Fraction."""
+    from fractions import Fraction
+    if t.key in val:
+        return val[t.key]
+    if t.key in memo:
+        return memo[t.key]
+    k, r = t.k, None
+    if k == "num":
+        r = Fraction(0)
+        for m, c in t.a[0].t.items():
+            x = Fraction(c)
+            for (a, e) in m:
+                y = _scalar_value(term(a), val, memo)
+                if y is None:
+                    x = None
+                    break
+                x *= y ** e
+            if x is None:
+                r = None
+                break
+            r += x
+    elif k in ("clamp", "dot", "min", "max", "norm", "abs"):
+        ops = list(t.a[0]) if k in ("min", "max") else list(t.a)
+        xs = [_scalar_value(o, val, memo) for o in ops]
+        if all(x is not None for x in xs):
+            if k == "clamp":
+                r = max(xs[1], min(xs[0], xs[2]))
+            elif k == "dot":
+                r = xs[0] * xs[1]
+            elif k == "min":
+                r = min(xs)
+            elif k == "max":
+                r = max(xs)
+            else:
+                r = abs(xs[0])
+    memo[t.key] = r
+    return r
+
+
+def _bracket_witness(fa, fb, lits, roles):
+    """A one-dimensional admissible input (lower <= centre <= upper, radius > 0) on which every literal of the path holds and the
+    callable has the same strict sign at both bracket ends, or None.  roles: (trial point, centre, bounds, radius) input terms."""
+    from fractions import Fraction as F
+    from itertools import product
+    x, xk, B, tr = roles
+    lo, hi = _box(B)
+    inputs = {x.key, xk.key, B.key, lo.key, hi.key, tr.key}
+    free = set()
+    for t in [fa, fb] + [c for (c, _) in lits]:
+        for a in S.atoms_of(t):
+            ta = term(a)
+            if ta.k in ("sym", "col", "sub", "item", "attr", "feas", "phiF", "call", "opq", "unk", "root") and a not in inputs:
+                free.add(a)
+    if free or any(c.k != "cmp" or c.a[0] not in ("lt", "le", "eq") for (c, _) in lits):
+        return None
+    grid = [F(-3), F(-1), F(0), F(1, 2), F(1), F(3)]
+    for (l, h), r, c, p in product([(F(-1), F(1)), (F(0), F(1)), (F(0), F(0))], [F(2), F(1), F(1, 2)], grid, grid):
+        if not (l <= c <= h):
+            continue
+        val = {x.key: p, xk.key: c, lo.key: l, hi.key: h, tr.key: r}
+        memo = {}
+        ok = True
+        for (cnd, pol) in lits:
+            u, v = _scalar_value(cnd.a[1], val, memo), _scalar_value(cnd.a[2], val, memo)
+            if u is None or v is None:
+                return None
+            holds = {"lt": u < v, "le": u <= v, "eq": u == v}[cnd.a[0]]
+            if holds != pol:
+                ok = False
+                break
+        if not ok:
+            continue
+        va, vb = _scalar_value(fa, val, memo), _scalar_value(fb, val, memo)
+        if va is None or vb is None:
+            return None
+        if va * vb > 0:
+            return dict(point=p, centre=c, lower=l, upper=h, radius=r, fa=va, fb=vb)
+    return None
+
+
+def _finder_calls(ctx, scope):
+    """call nodes of `scope` (nested defs included) whose callee resolves to a bracketing root finder of an external library"""
+    out = []
+    for s in [scope] + list(scope.descendants()):
+        for n in S.walk_local(s.node):
+            if isinstance(n, ast.Call):
+                for v in ctx.repo.resolve(n.func, s):
+                    if isinstance(v, S.ExtVal) and v.name.split(".")[-1] in S._ROOT_FINDERS:
+                        out.append(n)
+                        break
+    return out
+
+
+def d3_root_bracket(ctx):
+    """Every call `finder(f, a, b)` of a bracketing root finder reached in the projection onto box-and-trust-region (and in any
+    other function of the module) is made with f(a), f(b) of opposite (weak) signs on every path that reaches it: otherwise the
+    finder raises and NO point is returned."""
+    rule = RULE_BRACKET
+    pt = ctx.need(f"{SPG}:project_onto_tr")
+    tp = pt.params()
+    if len(tp) < 4:
+        raise Incomplete("project_onto_tr: (point, centre, bounds, radius) parameters not identified")
+    roles = tuple(mk("sym", p) for p in tp[:4])
+    x, xk, B, tr = roles
+    lo, hi = _box(B)
+    centre_fix = {mk("clamp", xk, lo, hi).key: xk}
+    covered = set()
+
+    def judge(I, scope_top, with_roles):
+        seen = set()
+        for e in [e for e in _all_events(I) if e["kind"] == "rootfind"]:
+            covered.add(id(e["node"]))
+            fa, fb = e["fa"], e["fb"]
+            key = (id(e["node"]), tuple((c.key, p) for (c, p) in e["pc"]), fa.key if fa is not None else None, fb.key if fb is not None else None)
+            if key in seen:
+                continue
+            seen.add(key)
+            construct = f"bracket:{_txt(e['node'], 60)}"
+            if fa is None or fb is None:
+                ctx.undecided(rule, e["scope"], e["node"], construct=construct,
+                              detail="the callable handed to the root finder could not be evaluated at the bracket ends")
+                continue
+            if with_roles:
+                fa, fb = S.subst(fa, centre_fix), S.subst(fb, centre_fix)
+                if fa.key != e["fa"].key or fb.key != e["fb"].key:
+                    ctx.assume(f"project({tp[1]}, {tp[2]}) == {tp[1]}: the centre of the trust region is a feasible iterate (used for the bracket of the root finder)")
+            verdict, detail = True, ""
+            for lits in S.pc_scenarios(e["pc"]):
+                if with_roles:
+                    lits = [(S.subst(c, centre_fix), p) for (c, p) in lits]
+                facts = _ordering_facts(lits)
+                (age, ale), (bge, ble) = _end_sign(fa, facts), _end_sign(fb, facts)
+                if (ale and bge) or (age and ble):
+                    continue
+                verdict = None
+                detail = (f"f({S.brief(e['a'], 20, 2)}) = `{S.brief(fa, 90, 3)}` and f({S.brief(e['b'], 20, 2)}) = `{S.brief(fb, 90, 3)}`: opposite signs are not implied by the "
+                          f"conditions under which the call is reached ({'; '.join(('' if p else 'not ') + S.brief(c, 80, 3) for (c, p) in lits) or 'none'})")
+                if with_roles and S.understood(fa, fb, *[c for (c, _) in lits]) and S.no_carried_unknown(fa, fb):
+                    w = _bracket_witness(fa, fb, lits, roles)
+                    if w is not None:
+                        verdict = False
+                        detail += (f"; witness (1-D): {tp[1]} = {w['centre']}, {tp[2]} = [{w['lower']}, {w['upper']}], {tp[0]} = {w['point']}, {tp[3]} = {w['radius']}: the call is reached, "
+                                   f"f({S.brief(e['a'], 20, 2)}) = {w['fa']} and f({S.brief(e['b'], 20, 2)}) = {w['fb']} have the same sign, the root finder raises and no point is returned")
+                break
+            ctx.decide(rule, verdict, e["scope"], e["node"], construct=construct,
+                       detail="the guard that lets the call be reached makes f change sign over the bracket (f at one end is the negated guard, at the other -radius^2)",
+                       bad_detail=detail)
+
+    I = _interp(ctx)
+    I.run(pt, {})
+    judge(I, pt, True)
+    # any other function of the module with a bracketing root finder of its own: only what its own path conditions imply
+    mod = ctx.need_module(SPG)
+    for sc in mod.scope.descendants():
+        if sc.kind != "function" or sc is pt or sc.parent is None or sc.parent.kind not in ("module", "class"):
+            continue
+        calls = [n for n in _finder_calls(ctx, sc) if id(n) not in covered]
+        if not calls:
+            continue
+        I = _interp(ctx)
+        I.run(sc, {})
+        judge(I, sc, False)
+        for n in calls:
+            if id(n) not in covered:
+                ctx.undecided(rule, sc, n, construct=f"bracket:{_txt(n, 60)}", detail="the call of the root finder was not reached by the symbolic execution")
+
+
 def _factor(t, sym):
     """t == c * sym -> Poly c (in the other atoms) else None"""
     if not S.is_num(t) or t.k == "ite":
@@ -817,6 +1043,12 @@ def _cutback(new_body):
     return [(_CUTBACK, new_body)]
 
 
+_TR_GUARD_HEAD = ("    d = project(x, bounds) - xk\n    dd = d@d\n    if dd <= trSize*trSize:\n        return project(x, bounds)\n\n"
+                  "    def f(t):\n        r = project(xk + t*(x - xk), bounds) - xk\n        return r@r - trSize*trSize\n")
+_TR_GUARD_BY_RESIDUAL = ("    def f(t):\n        r = project(xk + t*(x - xk), bounds) - xk\n        return r@r - trSize*trSize\n\n"
+                         "    if f(1.0) <= 0.0:\n        return project(x, bounds)\n")
+
+
 def variants(repo):
     from optilint.selftest import Variant, sub, sub_in_func, alpha_rename, reformat, commute
     from . import C05_variants as V2
@@ -948,6 +1180,15 @@ def variants(repo):
                         "        i = 0\n        while True:\n            alpha = cutback*alpha\n"
                         "            s = np.clip(x - alpha*g, bounds[:,0], bounds[:,1]) - x\n            ss = s@s\n            i += 1\n"
                         "            if not (ss > deltaSquared and i < maxLineSearchIters):\n                break\n")), None),
+        # ---- round 4: the bracket handed to the root finder of project_onto_tr
+        Variant("round 4: early-exit guard of project_onto_tr measured on the raw point (no sign change over the bracket)", S,
+                sub_in_func("project_onto_tr", "    d = project(x, bounds) - xk\n    dd = d@d\n", "    d = x - xk\n    dd = d@d\n"), RULE_BRACKET),
+        Variant("round 4: early-exit guard of project_onto_tr compares with the radius, not its square", S,
+                sub_in_func("project_onto_tr", "    if dd <= trSize*trSize:\n", "    if dd <= trSize:\n"), RULE_BRACKET),
+        Variant("round 4: early exit of project_onto_tr decided by the residual function at the far bracket end", S,
+                sub_in_func("project_onto_tr", _TR_GUARD_HEAD, _TR_GUARD_BY_RESIDUAL), None),
+        Variant("round 4: ... residual function of the raw point in the early exit", S,
+                sub_in_func("project_onto_tr", _TR_GUARD_HEAD, _TR_GUARD_BY_RESIDUAL.replace("    if f(1.0) <= 0.0:", "    if (x - xk)@(x - xk) - trSize*trSize <= 0.0:")), RULE_BRACKET),
     ] + [Variant("round 2: " + nm, S, _chain(*V2.full_chain(key)), expect) for (nm, key, expect) in V2.EXPECT] + [
         Variant("round 2: " + " + ".join(keys), S, _chain(*[pr for k in keys for pr in V2.full_chain(k)]), None)
         for keys in (("n1", "n2", "p1", "q2", "v_split"), ("t3", "p4", "w17", "s1", "q4"), ("s7", "t2", "q3", "t1", "v_partial", "u10"))] + [
